@@ -408,6 +408,7 @@ pub fn check(e: &Engine) {
 			confirm: 0,
 			max_shrink_iters: 50,
 			rule: "2-4 sender tasks on a multi-thread runtime (4 workers), 5-60 run markers each with generated yields; per-sender order and exactly-once; schedule is whatever the OS produces",
+			confirm_any: &[],
 		},
 		&|| {
 			(2u8..5, 5u8..60, proptest::collection::vec(any::<u8>(), 1..8))
